@@ -110,7 +110,13 @@ func genProgFields(r *Rng, cfg p1Cfg) []PStmt {
 			}
 			p = append(p, PStmt{T: "define", Kind: Pick(r, p1Kinds), Opts: append(opts, POpt{T: "notrace"})})
 			nd++
-			p = append(p, PStmt{T: "new", F: nd - 1, Msg: Pick(r, p1Msgs)})
+			if b == 0 && r.Chance(1, 3) {
+				// the first errdef layer is the DEFINITION itself used as an error value (not a *definedError):
+				// extractors answer from its fields, not from the live errors of the later branches
+				p = append(p, PStmt{T: "defaserr", D: nd - 1})
+			} else {
+				p = append(p, PStmt{T: "new", F: nd - 1, Msg: Pick(r, p1Msgs)})
+			}
 			ne++
 			depth := r.Intn(3)
 			if b == 0 {
